@@ -363,3 +363,41 @@ func normAtom(a Atom) Atom {
 		return a
 	}
 }
+
+var stringListCache map[string][]string
+
+// globalStringLists: package-level []string variables initialised from a literal of string constants.
+func (P *Program) globalStringLists() map[string][]string {
+	if stringListCache != nil {
+		return stringListCache
+	}
+	stringListCache = map[string][]string{}
+	for _, fn := range P.AllFuncs {
+		if !strings.HasPrefix(fn.Name(), "init") {
+			continue
+		}
+		allInstrs(fn, func(i ssa.Instruction) {
+			st, ok := i.(*ssa.Store)
+			if !ok {
+				return
+			}
+			g, ok := st.Addr.(*ssa.Global)
+			if !ok {
+				return
+			}
+			seq, ok := seqOf(st.Val)
+			if !ok || len(seq) == 0 {
+				return
+			}
+			var names []string
+			for _, e := range seq {
+				if e.Kind != "elem" || !strings.HasPrefix(e.D, "\"") {
+					return
+				}
+				names = append(names, strings.Trim(e.D, "\""))
+			}
+			stringListCache[desc(g)] = names
+		})
+	}
+	return stringListCache
+}
